@@ -10,11 +10,14 @@ import (
 	"crypto/sha256"
 	"encoding/binary"
 	"encoding/hex"
+	"encoding/json"
 	"flag"
 	"fmt"
 	"math"
 	"net"
 	"os"
+	"path/filepath"
+	"sort"
 	"strconv"
 	"strings"
 	"sync"
@@ -434,7 +437,14 @@ func writeOracle(mode int, n int, ld *dist, fed []int, res writeResult) (string,
 		return "write-panics", "Write panicked: " + res.panicked
 	}
 	if res.aborted {
-		return "write-does-not-terminate", fmt.Sprintf("Write(%d bytes) drew more than %d samples without returning (wrote %d segments so far)", n, len(res.used)/16, len(res.sizes))
+		sig := "write-does-not-terminate"
+		switch tableClass(ld.values) {
+		case "only-zero":
+			sig = "paranoid-table-is-only-zero"
+		case "single-length":
+			sig = "paranoid-single-length-table-never-terminates"
+		}
+		return sig, fmt.Sprintf("Write(%d bytes) drew more than %d samples without returning (wrote %d segments so far)", n, len(res.used)/16, len(res.sizes))
 	}
 	if res.err != nil || res.n != n {
 		return "write-fails", fmt.Sprintf("Write(%d bytes) returned (%d, %v)", n, res.n, res.err)
@@ -608,7 +618,9 @@ func sizeClass(n int) string {
 
 var writeSizes = []int{0, 1, 2, 100, 700, 1405, 1406, 1407, 1426, 1427, 1428, 1447, 1448, 1449, 2*1427 - 1, 2 * 1427, 2*1427 + 1, 5000}
 
-// indicesFor chooses the steering for one Write.
+// indicesFor chooses the steering for one Write: table indices for the successive (potential)
+// length samples. Streams are randomised over all usable entries (a constant stream is an
+// adversarial one: paranoid mode terminates almost surely, not surely).
 func indicesFor(rng *vlib.Rng, ld *dist, mode, n int, policy string) []int {
 	nv := len(ld.values)
 	count := 8 + n/mss
@@ -617,69 +629,89 @@ func indicesFor(rng *vlib.Rng, ld *dist, mode, n int, policy string) []int {
 	}
 	idx := make([]int, count)
 	zero := indexOf(ld.values, 0)
-	// indices of values that keep paranoid mode moving quickly
-	var big []int
+	var big, nz []int
 	for i, v := range ld.values {
 		if v >= 200 {
 			big = append(big, i)
 		}
-	}
-	if len(big) == 0 {
-		for i, v := range ld.values {
-			if v > 0 {
-				big = append(big, i)
-			}
+		if v > 0 {
+			nz = append(nz, i)
 		}
+	}
+	if len(big) < 2 {
+		big = nz
+	}
+	pickBig := func() int {
+		if len(big) == 0 {
+			return 0
+		}
+		if len(nz) > 0 && rng.Intn(8) == 0 {
+			return nz[rng.Intn(len(nz))]
+		}
+		return big[rng.Intn(len(big))]
 	}
 	for k := range idx {
 		switch policy {
 		case "zero-first":
 			if k == 0 && zero >= 0 {
 				idx[k] = zero
-			} else if len(big) > 0 {
-				idx[k] = big[rng.Intn(len(big))]
+			} else {
+				idx[k] = pickBig()
 			}
 		case "zero-often":
 			if zero >= 0 && rng.Intn(3) == 0 {
 				idx[k] = zero
-			} else if len(big) > 0 {
-				idx[k] = big[rng.Intn(len(big))]
+			} else {
+				idx[k] = pickBig()
 			}
 		case "any":
-			if k < 40 || len(big) == 0 {
+			if k < 40 {
 				idx[k] = rng.Intn(nv)
 			} else {
-				idx[k] = big[rng.Intn(len(big))]
+				idx[k] = pickBig()
 			}
 		default: // "big"
-			if len(big) > 0 {
-				idx[k] = big[rng.Intn(len(big))]
-			}
+			idx[k] = pickBig()
 		}
 	}
 	return idx
 }
 
-// tableClass classifies a 0..1448 length table for the termination part of the property.
-//   "only-zero":   no non-zero sample exists (F2b)
-//   "stuck":       every value is <= 22: a needed padding can never exceed a header, so paranoid
-//                  mode can only finish on an exact hit (not guaranteed; sure hang for one value)
-func tableClass(values []int) string {
-	max := 0
+func nonZero(values []int) []int {
+	var nz []int
 	for _, v := range values {
+		if v != 0 {
+			nz = append(nz, v)
+		}
+	}
+	return nz
+}
+
+// tableClass classifies a 0..1448 length table for the termination part of the property:
+//
+//	"only-zero":         no non-zero length exists (DESIGN §5 F2b): paranoid Write cannot write
+//	"single-length":     exactly one non-zero length v: every sample stream is the constant one;
+//	                     paranoid Write cycles forever for many (v, write size) (e.g. v = 10)
+//	"small-values-only": all lengths <= 22: a needed padding never exceeds a header, termination
+//	                     only by exact hits (depends on the samples; not probed)
+func tableClass(values []int) string {
+	nz := nonZero(values)
+	max := 0
+	for _, v := range nz {
 		if v > max {
 			max = v
 		}
 	}
 	switch {
-	case max == 0:
+	case len(nz) == 0:
 		return "only-zero"
+	case len(nz) == 1:
+		return "single-length"
 	case max <= hdr+1:
 		return "small-values-only"
 	}
 	return "normal"
 }
-
 
 // ---------------------------------------------------------------- scenario on one connection
 
@@ -821,7 +853,7 @@ func scenario(r *vlib.Run, ds, dd *vlib.Driver, c scenarioCase) {
 			pre := lenDist(p.cli.conn)
 			plumb := c
 			plumb.Cap = 0
-			if tableClass(pre.values) != "normal" || !runWrite(r, ds, p, "client-pre", 1, indicesFor(rng, pre, p.cliIat, 1, "big"), plumb) {
+			if (tableClass(pre.values) != "normal" && p.cliIat == 2) || !runWrite(r, ds, p, "client-pre", 1, indicesFor(rng, pre, p.cliIat, 1, "big"), plumb) {
 				return
 			}
 			deliver(p.cli, p.srv)
@@ -842,8 +874,8 @@ func scenario(r *vlib.Run, ds, dd *vlib.Driver, c scenarioCase) {
 		r.Violate("client-initial-table-model-impl-disagree", "correspondence", fmt.Sprintf("client seed %s: initial length table differs from the model's", p.cliSeed), c)
 		return
 	}
-	if tableClass(pre.values) != "normal" {
-		return // the client's random own table is degenerate; nothing to learn here
+	if tableClass(pre.values) != "normal" && p.cliIat == 2 {
+		return // the client's own random table is degenerate (see the termination probes)
 	}
 	sent := 0
 	n0 := vlib.Pick(rng, []int{1, 10, 500, 1427, 1428})
@@ -858,8 +890,8 @@ func scenario(r *vlib.Run, ds, dd *vlib.Driver, c scenarioCase) {
 	}
 
 	// 2. server writes
-	if tableClass(sl.values) != "normal" {
-		return // handled by the termination probes
+	if tableClass(sl.values) != "normal" && (p.srvIat == 2 || p.cliIat == 2) {
+		return // paranoid mode on a degenerate table: handled by the termination probes
 	}
 	hasZero := indexOf(sl.values, 0) >= 0
 	sent = 0
@@ -971,8 +1003,38 @@ func main() {
 
 	rng := vlib.NewRng(r.Seed)
 
+	// ---- corpus: minimised past failures and the seeds of the recorded findings, first
+	files, _ := filepath.Glob(filepath.Join(os.Getenv("VERIF_DIR"), "corpus", "C09", "*.json"))
+	sort.Strings(files)
+	for _, f := range files {
+		b, err := os.ReadFile(f)
+		if err != nil {
+			continue
+		}
+		var doc struct {
+			Case json.RawMessage `json:"case"`
+		}
+		var raw map[string]interface{}
+		if json.Unmarshal(b, &doc) != nil || json.Unmarshal(doc.Case, &raw) != nil {
+			continue
+		}
+		r.Count("corpus", filepath.Base(f))
+		if raw["op"] == "pad" {
+			var c padCase
+			json.Unmarshal(doc.Case, &c)
+			checkPad(r, ds, c, "")
+		} else {
+			var c scenarioCase
+			json.Unmarshal(doc.Case, &c)
+			scenario(r, ds, dd, c)
+		}
+	}
+
 	// ---- (a) padBurst
 	padAll(r, ds, rng.Fork())
+
+	// ---- termination probes: paranoid Write on single-length tables found by a cheap search
+	probeSingles(r, ds, dd, rng.Fork())
 
 	// ---- (b), (c) connections
 	srng := rng.Fork()
@@ -994,6 +1056,38 @@ func main() {
 		scenario(r, ds, dd, c)
 	}
 	r.Finish()
+}
+
+// probeSingles scans random seeds for length tables with a single non-zero length (1 % of
+// seeds) and runs one capped paranoid Write on each: most terminate at once, some never do.
+func probeSingles(r *vlib.Run, ds, dd *vlib.Driver, rng *vlib.Rng) {
+	scan, maxProbes := r.Scale(600, 48000), r.Scale(6, 60)
+	seeds := make([]string, scan)
+	for i := range seeds {
+		seeds[i] = hex.EncodeToString(rng.Bytes(24))
+	}
+	class := make([]string, scan)
+	var wg sync.WaitGroup
+	for w := 0; w < 16; w++ {
+		wg.Add(1)
+		go func(w int) {
+			defer wg.Done()
+			for i := w; i < scan; i += 16 {
+				class[i] = tableClass(tableOfSeed(seeds[i]))
+			}
+		}(w)
+	}
+	wg.Wait()
+	probes := 0
+	for i, cl := range class {
+		r.Count("scanned-seed-table", cl)
+		if (cl == "single-length" || cl == "only-zero") && probes < maxProbes {
+			probes++
+			n := vlib.Pick(rng, []int{1, 2, 100, 1427, 3000})
+			scenario(r, ds, dd, scenarioCase{Op: "write1", Seed: seeds[i], SrvIat: 2, CliIat: 0, RngKey: rng.U64(),
+				Side: "server", N: n, Indices: make([]int, 50), Cap: 400})
+		}
+	}
 }
 
 func padAll(r *vlib.Run, ds *vlib.Driver, rng *vlib.Rng) {
